@@ -19,7 +19,8 @@
     * bgv.tensorScaleInvariant, out = op1      — output Scale = sinv(scale0, scale0)   [NEW while transcribing]
     * bgv.matchScaleThenEvaluateInPlace, out = op1 — op1 overwritten before it is read
     * bgv.Add / bgv.Mul (*big.Int)             — caller's big.Int rewritten
-    * ring.DivRoundByLastModulus               — input polynomial rewritten
+    * ring.DivRoundByLastModulus               — input polynomial rewritten (fixed in /repo by commit 64e1afc;
+                                                 the model follows HEAD, the old program is kept as `divRoundProgOld`)
     * ct+ct Add/Sub into an output of larger previous degree — stale polynomial kept
   Each is replayed on the real code by a harness probe (harness/c09.go).
 
@@ -124,13 +125,28 @@ theorem alias_sound_rlwe_partialTracesSum_partial (I : Interp α) (hcopy : ∀ x
 
 example : ∀ x : Int, intI.fn .copy [x] = x := fun _ => rfl
 
-/-- ring.DivRoundByLastModulus: result alias-insensitive, input rewritten. -/
-theorem ring_divRound_result (I : Interp α) (al : Alias) (hal : al = .distinct ∨ al = .outOp0) (σ : Store α) : type_of% (divRound_result I al hal σ) :=
-  divRound_result I al hal σ
+/-- ring.DivRoundByLastModulus as of HEAD (commit 64e1afc and later): alias-sound, input intact. -/
+theorem alias_sound_ring_divRound (I : Interp α) (al : Alias) (hal : al = .distinct ∨ al = .outOp0)
+    (σ : Store α) : type_of% (divRound_alias_sound I al hal σ) := divRound_alias_sound I al hal σ
 
+/-- the version before commit 64e1afc rewrote its input (finding of this property, fixed since). -/
+theorem ring_divRound_pre64e1afc_inputs_counterexample :
+    ∃ σ : Store Int, run intI (divRoundProgOld Alias.distinct.pat) σ (L 0 2) ≠ σ (L 0 2) :=
+  divRoundOld_inputs_counterexample
+
+/-- (name kept for the required-theorem list) the result part of `alias_sound_ring_divRound`. -/
+theorem ring_divRound_result (I : Interp α) (al : Alias) (hal : al = .distinct ∨ al = .outOp0) (σ : Store α) :
+    let p := al.pat
+    let σ' := run I (divRoundProg p) σ
+    σ' (L p.out 0) = divF I (σ (L p.op0 2)) (σ (L p.op0 0)) ∧
+    σ' (L p.out 1) = divF I (σ (L p.op0 2)) (σ (L p.op0 1)) :=
+  ⟨(divRound_alias_sound I al hal σ).1, (divRound_alias_sound I al hal σ).2.1⟩
+
+/-- (name kept for the required-theorem list) = `ring_divRound_pre64e1afc_inputs_counterexample`:
+    about `divRoundProgOld`, the code before the fix. -/
 theorem ring_divRound_inputs_counterexample :
-    ∃ σ : Store Int, run intI (divRoundProg Alias.distinct.pat) σ (L 0 2) ≠ σ (L 0 2) :=
-  divRound_inputs_counterexample
+    ∃ σ : Store Int, run intI (divRoundProgOld Alias.distinct.pat) σ (L 0 2) ≠ σ (L 0 2) :=
+  divRoundOld_inputs_counterexample
 
 /-- ring.DivRoundByLastModulusNTT: alias-sound and input-preserving (it goes through `buff`). -/
 theorem alias_sound_ring_divRoundNTT (I : Interp α) (al : Alias) (hal : al = .distinct ∨ al = .outOp0)
@@ -158,7 +174,7 @@ theorem add_history_counterexample :
 example : predictAlias .bgvMatchScale .outOp1 6 2 = .differs := by decide
 example : predictAlias .bgvTensorSI .outOp1 6 2 = .differs := by decide
 example : predictAlias .ckksEval .outOp1 2 6 = .sameAsFresh := by decide
-example : predictInputs .divRound 4 4 = .differs := by decide
+example : predictInputs .divRound 4 4 = .sameAsFresh := by decide
 
 end Lattigo.Props.C09
 
@@ -178,8 +194,10 @@ open Lattigo.Props.C09 in
 #print axioms Lattigo.Props.C09.alias_sound_rlwe_automorphism
 #print axioms Lattigo.Props.C09.rlwe_partialTracesSum_frame
 #print axioms Lattigo.Props.C09.alias_sound_rlwe_partialTracesSum_partial
+#print axioms Lattigo.Props.C09.alias_sound_ring_divRound
 #print axioms Lattigo.Props.C09.ring_divRound_result
 #print axioms Lattigo.Props.C09.ring_divRound_inputs_counterexample
+#print axioms Lattigo.Props.C09.ring_divRound_pre64e1afc_inputs_counterexample
 #print axioms Lattigo.Props.C09.alias_sound_ring_divRoundNTT
 #print axioms Lattigo.Props.C09.resize_keeps_prefix
 #print axioms Lattigo.Props.C09.add_history_free_partial
